@@ -272,7 +272,10 @@ def o64(ctx):
     nsam = {k: (lambda rng: float(rng.uniform(-3, 3))) for k in ("nx", "ny", "nz")}
     special = []
     for vec in ((1, 0, 0), (0, 1, 0), (-1, 0, 0), (0, -1, 0), (0, 0, 1), (0, 0, -1), (2, 0, 0), (0, 0, 5), (3, 0, 4), (0, 2, -2),
-                (1e-3, 0, 0), (0.6, 0.8, 0)):
+                (1e-3, 0, 0), (0.6, 0.8, 0),
+                # "normals of any length": very short and very long ones in general position (a test with an ABSOLUTE tolerance on an un-normalised component
+                # takes a short normal for one along z; the direction is what counts)
+                (3e-10, 4e-10, 12e-10), (-2e-12, 1e-12, 2e-12), (5e-9, 0, 1e-9), (0, -3e-11, 4e-11), (250.0, -100.0, 40.0), (3e7, 4e7, 0)):
         special.append({"nx": float(vec[0]), "ny": float(vec[1]), "nz": float(vec[2]), "__salt__": 0.1})
     def table_input():
         # the other documented input form: a data frame with the columns x, y, z (in any column order, among other columns)
